@@ -460,7 +460,7 @@ func (s *State) evalPrintLogError(node *ast.Builtin) object.Object {
 		r := object.Value(s.evalInternal(v)) // deref: a string from an outer scope is still a string.
 		s.lighter()
 		// If what we print/println is an error, return it instead. log can log errors.
-		if r.Type() == object.ERROR && !doLog {
+		if r.Type() == object.ERROR && (!doLog || (s.Context != nil && s.Context.Err() != nil)) { // same as catch when cancelled.
 			return r
 		}
 		if isString := r.Type() == object.STRING; isString {
@@ -590,6 +590,11 @@ func (s *State) evalBuiltin(node *ast.Builtin) object.Object {
 		val = s.evalInternal(node.Parameters[0])
 		rt = val.Type()
 		if rt == object.ERROR && t != token.LOG && t != token.CATCH { // log can log (and thus catch) errors.
+			return val
+		}
+		if rt == object.ERROR && s.Context != nil && s.Context.Err() != nil {
+			// Cancelled / past the deadline: not something for the program to catch and carry on from (the work
+			// still in flight at each level being unwound could take minutes more).
 			return val
 		}
 	}
